@@ -797,8 +797,8 @@ class TaggingInterp(Interp):
 
 
 INIT_ENV = dict(K=None, S=None, inv=False, cu=False, ne=False, rc='N', ro='N', allow=False, neverskip=True,
-                last='Ok', reterr=False, orphan=None, touched=False, loaded='None', client_op=False, had=False, ret=None, wrong_record=None, raced=False)
-STATE_KEYS = ('K', 'S', 'inv', 'cu', 'ne', 'rc', 'ro', 'allow', 'neverskip', 'had')
+                last='Ok', reterr=False, orphan=None, touched=False, loaded='None', client_op=False, had=False, ret=None, wrong_record=None, raced=False, nr=False)
+STATE_KEYS = ('K', 'S', 'inv', 'cu', 'ne', 'rc', 'ro', 'allow', 'neverskip', 'had', 'nr')
 
 
 def _state(env):
@@ -824,6 +824,7 @@ def explore(ctx, ops, terminal):
             work.append(e)
     violations = {}
     observed_cells = set()
+    next_request_states = []
     n_runs = 0
 
     def history(s):
@@ -839,6 +840,10 @@ def explore(ctx, ops, terminal):
 
     def report(kind, key, e0, opname, detail):
         k = '%s|%s' % (kind, key)
+        if e0.get('nr'):
+            # the history crossed a request boundary: the creation policy decides whether "a cookie without a record" is an ordinary
+            # state, so it is part of the identity of the violation
+            k += '|in-the-request-after-a-cookie-without-a-record|%s' % ('NeverSkip' if e0['neverskip'] else 'SkipIfEmpty')
         if k not in violations:
             violations[k] = (history(_state(e0)) + [opname], cfg(e0), detail)
 
@@ -905,12 +910,24 @@ def explore(ctx, ops, terminal):
                         report('cookie', 'no-session-cookie|' + cell, e0, opname,
                                'the session is alive (%s) but finalize returns %s: the next request cannot find its state' % (
                                    'a record exists under its id' if env['rc'] == 'Y' else 'the client already holds its cookie', ret))
+                    # closure over REQUESTS: a session cookie handed out while the session knows that there is no record under its id
+                    # (client-side values only, SkipIfEmpty; or a missing record that was allowed) is a state the session itself
+                    # produced; the next request starts there, and there the missing record is a fact, not a race.
+                    # (a request that arrived without a cookie and never touched the client-side state has nothing to put in a cookie: the
+                    # path on which the client state "is not empty" is infeasible there)
+                    if not env['inv'] and ret == 'some:cookie:response' and env['rc'] == 'N' and (e0['had'] or env['cu']):
+                        nxt = dict(INIT_ENV, K='Existing', S='NotLoaded', rc='N', ne=False, allow=e0['allow'], neverskip=e0['neverskip'], had=True, nr=True)
+                        s1 = _state(nxt)
+                        if s1 not in seen:
+                            seen[s1] = (s0, opname + ' -> session cookie without a record ; NEXT REQUEST with that cookie')
+                            work.append(nxt)
+                            next_request_states.append(cfg(nxt))
                     continue
                 s1 = _state(env)
                 if s1 not in seen:
                     seen[s1] = (s0, opname)
                     work.append(dict(INIT_ENV, **{k: env[k] for k in STATE_KEYS}))
-    return dict(violations=violations, observed_cells=observed_cells, n_states=len(seen), n_runs=n_runs, n_paths=interp.n_paths, n_store_calls=sem.n_store_calls,
+    return dict(violations=violations, observed_cells=observed_cells, n_states=len(seen), n_runs=n_runs, n_paths=interp.n_paths, n_store_calls=sem.n_store_calls, next_request_states=next_request_states,
                 unknown=sorted(set(sem.unknown)))
 
 
@@ -943,6 +960,8 @@ def r5_typestate(ctx):
     ctx.count('typestate_store_calls_interpreted', res['n_store_calls'])
     ctx.floor('C11.R5', 'abstract session states reached', res['n_states'], 200)
     ctx.floor('C11.R5', 'store calls interpreted', res['n_store_calls'], 100)
+    ctx.count('typestate_next_request_states', len(res['next_request_states']))
+    ctx.floor('C11.R5', 'end states carried into a next request (a cookie handed out without a record)', len(res['next_request_states']), 1)
     ctx.ob('C11.R5', 'interpreter-understood-everything', not res['unknown'], sync.loc(),
            'constructs the abstract interpreter could not model: %s' % (res['unknown'][:6] or 'none'))
     # verdicts derived from a model with holes are not verdicts: when a construct could not be modelled only that is reported (fail closed)
